@@ -1,4 +1,5 @@
 import MalVerif.Py.TieLegacyOld
+import MalVerif.Py.TieLegacyScad
 import MalVerif.Props.C18
 /-!
 # C18 for the *translated* legacy loaders
@@ -215,5 +216,73 @@ theorem old_loader_unknown_entry_point_unmodelled :
     updater_process_model demoFiles demoEnv (encOld true "m" d) demoFac = .error .unmodelled ∧
     loadOld Legacy.Sample.lang (fun _ => true) d = .error .lookupError := by
   exact ⟨raisesL_eq (by decide +kernel), rejects_eq (by decide +kernel)⟩
+
+
+/-! ### securiCAD -/
+
+/-- **the translated securiCAD loader is `Legacy.loadScad`.**  For a parsed archive `d` (`files.eom path`): the translated
+`load_model_from_scad_archive` returns a model (not `None`) whose abstraction is the state `loadScad` computes, and
+returns `None` or raises exactly when `loadScad` rejects the archive.  `lg` (the language graph's
+`get_association_by_fields_and_assets`, translated and tied in the domain `lang`) is a parameter with its
+specification `LgSpec` (= `LG.lookupAssoc`) as hypothesis; `ObjWf`: per object, the decapitalised evidence names are
+distinct, the range-check oracle is the factory's, no evidence attribute has the empty name unless no defense has. -/
+theorem scad_loader_refines (files : Files) {env : ModelEnv} (hE : EqId env) (fac : Factory) (lg : LangGraphView)
+    (nodes : List AssocDecl) (defsOk : Int → Bool) (path : String) (d : ScadDoc) (hF : FieldsDistinct fac.L)
+    (hd : ClassNamesDistinct fac.L) (hnodes : ∀ a ∈ nodes, a ∈ fac.L.assocs) (hlg : LgSpec fac.L nodes lg)
+    (hfile : files.eom path = .ok d) (hwf : ∀ o ∈ d.objects, ObjWf fac defsOk o)
+    (hfuel : d.objects.length ≤ env.whileFuel) :
+    (match securicad_load_model_from_scad_archive files env path lg fac with
+     | .ok (some s') => some (abs s') | _ => none) =
+      optSt (loadScadFrom fac.L nodes defsOk (abs (emptyModel path)) d) :=
+  scad_loader_sim files hE fac lg nodes defsOk path d hF hd hnodes hlg hfile hwf hfuel
+
+/-- `loadScadFrom` from `{}` is `loadScad` -/
+theorem scad_init (L : Lang) (nodes : List AssocDecl) (defsOk : Int → Bool) (d : ScadDoc) :
+    loadScadFrom L nodes defsOk {} d = loadScad L nodes defsOk d := rfl
+
+/-- **`ObjWf.noEmpty` is needed**: an evidence attribute with the empty name makes the Python raise `IndexError`
+(`name[0]`), while the hand-written `loadScadObject` reads the defense `""` (which a class may have) -/
+theorem scad_empty_evidence_name_counterexample :
+    scadObjectBody cexEnv cexFac cexObj (none, {}) = .error (.py .other) ∧
+    ∃ st, loadScadObject cexLang (fun _ => true) (abs {}) cexObj = .ok st :=
+  ⟨cex_python_raises, cex_hand_accepts⟩
+
+/-- the language graph view that answers with `LG.lookupAssoc` -/
+def demoLg (L : Lang) (nodes : List AssocDecl) : LangGraphView :=
+  ⟨fun f1 f2 t1 t2 => match LG.lookupAssoc L nodes f1 f2 t1 t2 with
+    | .ok r => .ok r | .error _ => .error (.py .lookupError)⟩
+
+def demoScadFiles : Files :=
+  { json := fun _ => .error .unmodelled, yaml := fun _ => .error .unmodelled,
+    eom := fun _ => .ok (emitScad Legacy.Sample.lang Legacy.Sample.st) }
+
+/-- the hypotheses of `scad_loader_refines` hold for the archive written for `Legacy.Sample.st` (ids 5, −3, 0; a link with
+two left members and a self-link; an attacker with two steps on one asset) -/
+example : EqId demoEnv ∧ FieldsDistinct demoFac.L ∧ ClassNamesDistinct demoFac.L ∧
+    (∀ a ∈ Legacy.Sample.lang.assocs, a ∈ demoFac.L.assocs) ∧
+    LgSpec demoFac.L Legacy.Sample.lang.assocs (demoLg demoFac.L Legacy.Sample.lang.assocs) ∧
+    demoScadFiles.eom "m.sCAD" = .ok (emitScad Legacy.Sample.lang Legacy.Sample.st) ∧
+    (∀ o ∈ (emitScad Legacy.Sample.lang Legacy.Sample.st).objects, ObjWf demoFac (fun _ => true) o) ∧
+    (emitScad Legacy.Sample.lang Legacy.Sample.st).objects.length ≤ demoEnv.whileFuel := by
+  refine ⟨demoEnv_eqId, demo_fieldsDistinct, by decide, fun a ha => ha, fun _ _ _ _ => rfl, rfl, ?_, by decide +kernel⟩
+  have h : ∀ o ∈ (emitScad Legacy.Sample.lang Legacy.Sample.st).objects,
+      (o.defenses.map (fun d => decap d.1)).Nodup ∧
+      (fun _ => true) o.id = o.defenses.all (fun d => demoFac.floatOk d.2) ∧
+      (∀ d ∈ o.defenses, d.1 = "" → (MS.defensesOf demoFac.L o.metaConcept).any (·.1 = "") = false) := by
+    decide +kernel
+  exact fun o ho => ⟨(h o ho).1, (h o ho).2.1, (h o ho).2.2⟩
+
+/-- … and the translated loader returns what one expects: the negative id, the non-default defense value, the link with
+two left members as two binary associations, the attacker named `Attacker:9` with one tuple per asset -/
+example : loadsWithO (securicad_load_model_from_scad_archive demoScadFiles demoEnv "m.sCAD"
+      (demoLg Legacy.Sample.lang Legacy.Sample.lang.assocs) demoFac) (fun s =>
+    decide (s.name = "m.sCAD") &&
+    decide ((abs s).assets.map (assetView Legacy.Sample.lang (abs s)) =
+      [⟨5, "h", "Host", [("patched", "1.0")], "{}"⟩, ⟨-3, "Net:-3", "Net", [], "{}"⟩, ⟨0, "g", "Host", [("patched", "0.0")], "{}"⟩]) &&
+    decide ((abs s).associations.map (assocView (abs s)) =
+      [⟨"NetCon", "hosts", [5], "nets", [-3], "{}"⟩, ⟨"NetCon", "hosts", [0], "nets", [-3], "{}"⟩,
+       ⟨"Peer", "peers", [5], "peerOf", [5], "{}"⟩]) &&
+    decide ((abs s).attackers.map (attView (abs s)) = [⟨9, "Attacker:9", [(5, ["access", "connect"]), (0, ["access"])]⟩])) = true := by
+  decide +kernel
 
 end MalVerif.PropsGen.C18
